@@ -11,6 +11,7 @@ var Registry = map[string]func(*core.Ctx){
 	"C14": RunC14,
 	"C15": RunC15,
 	"C20": RunC20,
+	"SMOKE": RunSmoke,
 }
 
 // RegisterOnly registers every case kind (for replays).
